@@ -1,7 +1,7 @@
 /* C05 harness: return-value handshake on the REAL runtime (public + internal API, no source edits).
  * stdin:
  *   V <kind a|s|n|v> <variant 0 fork|1 fork_to|2 copyargs|3 new_team|4 new_subteam|5 qthread_fork_copyargs_to (kind s)> <shep> <prefull 0|1> <value u64>
- *   N <id> <parent|-1> <kind t|u|m|s|p>    declare a node of a team tree (t: new team, u: subteam of the default team,
+ *   N <id> <parent|-1> <kind t|u|m|M|s|p>    declare a node of a team tree (t: new team, u: subteam of the default team,
  *                                           p: leaf member spawned by its parent with qthread_fork_precond on an EMPTY word;
  *                                              the order token -<id> makes the controller fill that word,
  *                                           m: member spawned by its parent into the parent's team, s: subteam founded by its parent)
@@ -87,30 +87,52 @@ static aligned_t nstarted;
 static aligned_t seqctr;
 static long      finseq[MAXN];
 
-static aligned_t body_n(void *arg)
+/* kind 'M' = a member that spawns its children LATE: not when its body starts but when its gate opens, i.e. possibly after
+ * its team's leader function has returned and every earlier subteam has finished (a live member may still found subteams) */
+static aligned_t body_n(void *arg);
+static void spawn_children(int id)
 {
-    int id = (int)(intptr_t)arg;
     for (int c = 0; c < MAXN; c++) {
         if (!nd[c].used || nd[c].parent != id) continue;
         qthread_empty(&nd[c].gate);
-        if (nd[c].kind == 'm') qthread_fork(body_n, (void *)(intptr_t)c, &nd[c].ret);
+        if (nd[c].kind == 'm' || nd[c].kind == 'M') qthread_fork(body_n, (void *)(intptr_t)c, &nd[c].ret);
         else if (nd[c].kind == 'p') { qthread_empty(&nd[c].pre); qthread_fork_precond(body_n, (void *)(intptr_t)c, &nd[c].ret, 1, &nd[c].pre); }
         else qthread_fork_new_subteam(body_n, (void *)(intptr_t)c, &nd[c].ret);
     }
+}
+
+static aligned_t body_n(void *arg)
+{
+    int id = (int)(intptr_t)arg;
+    if (nd[id].kind != 'M') spawn_children(id);
     nd[id].started = 1;
     qthread_incr(&nstarted, 1);
     qthread_fill(&ctl);
     qthread_readFF(NULL, &nd[id].gate);
+    if (nd[id].kind == 'M') spawn_children(id);
     finseq[id] = (long)qthread_incr(&seqctr, 1);
     nd[id].finished = 1;
     qthread_fill(&ctl);
     return 100 + id;
 }
 
+static int has_late_anc(int i) { for (int p = nd[i].parent; p >= 0; p = nd[p].parent) if (nd[p].kind == 'M') return 1; return 0; }
+/* bodies that start as a consequence of `id` spawning its children and have not started yet */
+static int unstarted_below(int id)
+{
+    int k = 0;
+    for (int c = 0; c < MAXN; c++) {
+        if (!nd[c].used || nd[c].parent != id || nd[c].kind == 'p') continue;
+        if (!nd[c].started) k++;
+        else if (nd[c].kind != 'M') k += unstarted_below(c);
+    }
+    return k;
+}
+
 static void run_tree(int *order, int norder)
 {
     int n = 0, root = -1;   /* n: nodes that start without the controller's help (precondition members start when released) */
-    for (int i = 0; i < MAXN; i++) if (nd[i].used) { if (nd[i].kind != 'p') n++; if (nd[i].parent < 0) root = i; }
+    for (int i = 0; i < MAXN; i++) if (nd[i].used) { if (nd[i].kind != 'p' && !has_late_anc(i)) n++; if (nd[i].parent < 0) root = i; }
     qthread_empty(&ctl); nstarted = 0; seqctr = 0;
     alarm(getenv("C05_ALARM") ? atoi(getenv("C05_ALARM")) : 150);
     qthread_empty(&nd[root].gate);
@@ -129,7 +151,7 @@ static void run_tree(int *order, int norder)
             continue;
         }
         qthread_fill(&nd[id].gate);
-        while (!nd[id].finished) ctl_wait();
+        while (!nd[id].finished || (nd[id].kind == 'M' && unstarted_below(id))) ctl_wait();
         usleep(300);
     }
     printf("J");
